@@ -50,7 +50,7 @@ URLSAFE = set("ABCDEFGHIJKLMNOPQRSTUVWXYZabcdefghijklmnopqrstuvwxyz0123456789-._
 
 def rule_r1(ctx) -> RuleResult:
     r = c01.rule_r8(ctx)
-    rr = RuleResult("C03.R1", "rows only under tables, cells only under rows, captions only under tables", min_instances=10)
+    rr = RuleResult("C03.R1", "rows only under tables, cells only under rows, captions only under tables", min_instances=4)
     for f in r.findings:
         if "LIST_ITEM" not in f.construct:
             rr.bad(Finding("C03.R1", f.file, f.function, f.construct, f.message, f.line))
